@@ -73,7 +73,38 @@ Fixpoint plain_at (emb : bool) (t : ty) {struct t} : bool :=
 
 Definition plain (t : ty) : bool := plain_at false t.
 
-(** a struct whose state lives only in unexported fields, without custom JSON *)
+(** A struct that keeps state in unexported fields and shows NOTHING to the encoder: no
+    JSON-visible member at all once json:"-" fields are dropped and embedded structs are
+    expanded (an exported field tagged json:"-" or an embedded struct without exported
+    fields does not count).  Its checkpoint JSON is {} whatever it holds. *)
+Definition hidden_state (t : ty) : bool :=
+  match t with
+  | TStruct fs => has_unexported fs && is_nil (flat_ty 0 [] t)
+  | _ => false
+  end.
+
+(** ... reachable from a State/Spec through fields that are checkpointed: struct fields not
+    tagged json:"-", slice / array / map elements.  A type whose only JSON customisation
+    sits on POINTER receivers ([TOpaque]) is looked through: the State is marshalled by
+    value, so those methods are not used for a field or map value.  A value-receiver
+    custom marshaler pair ([TCustom]) is trusted and not looked into. *)
+Fixpoint contains_hidden (t : ty) {struct t} : bool :=
+  match t with
+  | TSlice e => contains_hidden e
+  | TArray _ e => contains_hidden e
+  | TMap _ e => contains_hidden e
+  | TStruct fs =>
+      hidden_state t ||
+      (fix go (fs : list (finfo * ty)) : bool :=
+         match fs with
+         | [] => false
+         | (fi, ft) :: fs' => (negb (f_skip fi) && contains_hidden ft) || go fs'
+         end) fs
+  | TOpaque u => contains_hidden u
+  | _ => false
+  end.
+
+(** the special case named in the statement: every field unexported *)
 Definition hidden_only (t : ty) : bool :=
   match t with
   | TStruct fs =>
